@@ -253,6 +253,8 @@ pub mod probes {
         }
         PROBES.lock().unwrap_or_else(|e| e.into_inner()).push(Probe { branch, step, name: t.name().map(|s| s.to_string()), id: t.id(), all_arrived: ok });
     }
+    /// `probe`, usable inside an expression: records, waits for the siblings, hands `v` on
+    pub fn pv(branch: u8, step: u8, expected: usize, v: u8) -> u8 { probe(branch, step, expected); v }
     /// expect: (branch, step, number of branches active in that step)
     pub fn check_probes(caller_id: ThreadId, caller_name: Option<String>, expect: &[(u8, u8, usize)]) -> Result<(), String> {
         let p = PROBES.lock().unwrap_or_else(|e| e.into_inner());
